@@ -4,7 +4,7 @@
    history the path is routed to; dg f is the file's current digest text in format f; `validate_record` is
    history._validate_new_hash_list.  The same `seal` / `validate_records` are what Model/Create.v calls for every
    file and what the extracted model executes against the real tool. *)
-From MHL Require Import Model.Seal Model.Commands Proofs.BaseFacts Proofs.SealFacts Proofs.TreeFacts Proofs.VerifyFacts Proofs.FlatFacts.
+From MHL Require Import Model.Seal Model.Commands Proofs.BaseFacts Proofs.SealFacts Proofs.TreeFacts Proofs.VerifyFacts Proofs.FlatFacts Proofs.InfoFacts Proofs.PackFacts Proofs.ShapeFacts.
 
 (* closed form of the record written for a file: the re-checked entries of recorded formats, then -- only if none of
    them failed -- the entries of the formats that are new for the path *)
@@ -101,3 +101,18 @@ Theorem C04_unaltered_tree_every_format_sequence_exits_0 : forall Hb matches C c
   verify_result Hb matches C cdig true (fst r) [] [] = Some (mkVR 0 [] [] []).
 Proof. exact seal_then_sequences. Qed.
 Print Assumptions C04_unaltered_tree_every_format_sequence_exits_0.
+
+(* ... and what those generations look like, as a whole history: after the seal and any number of runs, in the history
+   the next command loads, for EVERY path the first digest ever recorded that did not fail is marked `original`
+   (`scan` = generations in order, their file records, their digests), and folder records never carry a file digest.
+   This is the history-level form of `original only in the first generation that records the path`; it is an
+   invariant of the create cycle (Proofs/ShapeFacts.v), not a property of one record. *)
+Theorem C04_first_recorded_digest_is_original_end_to_end : forall Hb matches C cdig ser kids h0 req0 nd0 ip ifl rs,
+  wf_tree C (Dir None kids) -> load C cdig (Dir None kids) = inl [h0] -> req0 <> [] -> Forall (fun x => fst x <> []) rs ->
+  let r0 := create_folder Hb matches C cdig ser (Dir None kids) req0 nd0 false ip ifl in
+  let r := run_creates Hb matches C cdig ser (fst r0) rs in
+  exists old', fst r = Dir (Some old') kids /\
+    (forall p x, find (at_path p) (scan (loaded_gens C old')) = Some x -> is_original (snd x) = true) /\
+    (forall g rec e, In g (loaded_gens C old') -> In rec (g_records g) -> r_dir rec = true -> In e (r_entries rec) -> e_action e = None).
+Proof. exact seal_creates_shape. Qed.
+Print Assumptions C04_first_recorded_digest_is_original_end_to_end.
